@@ -1,6 +1,52 @@
 """Per-property driver configuration (level claimed, generation/non-triviality rule, assumptions)."""
 
 PROPS = {
+    "C02": {
+        "level": "exploration",
+        "workers": 16,
+        "engine": "E1-pure + E2-sim",
+        "technique": "model-based property testing: set model of held / needed / partial versions vs BookedVersions, its persisted rows, its reload, and generate_sync (proptest sequences + exhaustive small scope; sim histories checked after every step)",
+        "level_text": ("tier A: generated and exhaustively enumerated sequences of version-range insertions through the real snapshot/insert_db/commit_snapshot path on a real cr-sqlite "
+                       "connection vs a set model (needed == complement of held in 1..max as canonical ranges, persisted gap rows identical, reload identical). tier B: generated multi-node "
+                       "histories (complete, partial, empty deliveries, applies, clears) where after every step every node's generate_sync output is compared with a set model built from what "
+                       "the harness delivered (each version in exactly one class, exact missing seq ranges, nothing advertised held that was not stored) and with what BookedVersions::from_conn would advertise"),
+        "level_note": "trusts the harness' delivery bookkeeping (model updated from what it handed to process_multiple_changes, not from what corrosion reports); where suppliers declared different last_seq for one version and coverage depends on the choice, no demand is made (counted)",
+        "rule": ("tier A: <=40 ops, Insert(1-3 ranges within 1..=60, single/short/long/far ahead) or Reload; sweep: all sequences of <=4 single-range insertions over 1..=6 each followed by a reload. "
+                 "tier B: C01-style histories on 2-4 nodes (8-24 ops quick, 8-50 thorough). Non-trivial: tier A: the sequence splits a gap, merges gaps and inserts beyond max+1; tier B: a partial chunk was "
+                 "delivered and a version completed from chunks, a complete changeset overtook a partial one, or an Empty answer was applied. Distinct = hash of the case."),
+        "assumptions": ["version numbers <= 60 in tier A (the arithmetic is range based)", "u64 extremes and version 0 are outside what callers produce"],
+    },
+    "C03": {
+        "level": "exploration",
+        "workers": 16,
+        "engine": "E2-sim",
+        "technique": "model-based property testing over generated chunkings / arrival orders / batchings / suppliers (proptest); oracle: visibility shadow replica compared after every step",
+        "level_text": ("origin, relay and receiver built with the real setup(); the receiver gets each version as chunks produced by the real senders (captured broadcast chunks; answers of the real "
+                       "handle_need of origin or relay to generated Full/Partial needs, possibly after later versions overwrote part of it), in any order, duplication and batching, mixed with versions "
+                       "of a second actor; after every step the receiver's tables must equal a bare cr-sqlite shadow that gets a version exactly when a complete changeset arrived or when the chunks "
+                       "cover 0..=last_seq and the apply step ran; at the end (holders answered) nothing is needed, nothing stays buffered and the result equals the unchunked reference"),
+        "level_note": "trusts cr-sqlite merge determinism (shadow applies the same changes in a possibly different order) and the harness' record of what it delivered",
+        "rule": ("generated: prefix of 2-6 ops (multi-row / big-payload transactions of origin and relay, relay<-origin syncs), then 4-16 (quick) / 4-40 (thorough) receiver ops: Fetch (Full or Partial need with "
+                 "1-2 seq ranges from origin or relay, 8-bit loss mask, batch or single), Deliver (pool picks), Apply, Clear, Sync; then a fair schedule to the fix-point. Non-trivial: some version reached the "
+                 "receiver in >=3 partial chunks out of order or overlapping. Distinct = hash of the case."),
+        "assumptions": ["chunk sizes stay below a few hundred changes", "at most two suppliers"],
+    },
+    "C01": {
+        "level": "exploration",
+        "workers": 16,
+        "engine": "E2-sim",
+        "technique": "model-based property testing over generated multi-node histories and delivery schedules (proptest); oracle: reference replica (bare cr-sqlite fed unchunked transactions) + per-cell comparison + value provenance at the fix-point of a fair sync schedule",
+        "level_text": ("generated histories on 2-4 real setup() nodes: local transactions over small key spaces through the real write handler, the harness as network "
+                       "(any subset / order / duplication / batching of the captured broadcast chunks and of real sync answers), lossy and reordered sync sessions "
+                       "driven through the real generate_sync / compute_available_needs / chunk_range / process_sync / handle_need, apply and clear steps anywhere; "
+                       "then a fair schedule to a fix-point where every node must equal a reference replica that shares no corrosion code"),
+        "level_note": "trusts cr-sqlite's own merge (the reference uses the same extension), the harness' capture of broadcasts and its in-process sync driver (QUIC framing and request de-duplication of parallel_sync are bypassed)",
+        "rule": ("generated: 2-4 nodes, 4-20 (quick) / 4-60 (thorough) ops: Tx (1-4 statements over 6 integer keys incl. 0/127/128/255/256, composite blob+text keys, 0.3-6.3 KB payloads), "
+                 "Deliver (1-5 pool picks, batch or single), Sync (32-bit loss mask, reversed order, batch or single), Serve (Full / Partial needs answered into the pool), Apply, Clear; then Quiesce. "
+                 "Non-trivial: >=2 writers touched one cell AND a message was dropped, duplicated, reordered or delivered as a partial chunk. Distinct = hash of the op list."),
+        "assumptions": ["fair schedule = rounds of all ordered pairs syncing without loss plus apply/clear, until a round produces no answer (max 12 rounds)",
+                        "a node never receives changesets of its own actor (skipped by the interpreter)"],
+    },
     "C07": {
         "level": "exploration",
         "workers": 16,
